@@ -245,7 +245,10 @@ def run_history(kind, hist, acc, via_ctor=False):
         except Exception as e:  # noqa: BLE001
             vs.append(("rename-rejected", f"legal rename batch {mapping} rejected: {type(e).__name__}: {e}"))
             break
-        st = check_static(kind, node, mi, mo, name, pool)
+        try:
+            st = check_static(kind, node, mi, mo, name, pool)
+        except Exception as e:  # noqa: BLE001 - a lookup the model says must succeed raised
+            st = [("lookup-raised", f"{type(e).__name__}: {e}")]
         vs += [(s, f"after batch {bi + 1}: {m}") for s, m in st]
         if st:
             break
